@@ -38,7 +38,7 @@ def _pending(rep, finding):
 def flush(rep):
     pend = getattr(rep, "_layer_pending", [])
     rep._layer_pending = []
-    tl = [f for f in rep.violations if getattr(f, "rule", "") == "T.L"]
+    tl = [f for f in rep.violations if str(getattr(f, "rule", "")).startswith("T.")]
     for f in pend:
         if tl:
             rep.violation(f)
@@ -54,11 +54,9 @@ def run_ir(rep, tier, order):
     if order == 1:
         raychk.run(rep, tier, "C04", ["fw_drexp", "fw_drinv", "lr_drexp", "lr_drinv", "rm_dr", "rm_sq"], 1e-7, rule="T.L", minimum=60,
                    what="layer identities (free function == class function; dl_X(a) == dr_X(-a); dr_rminus == dr_expinv; dr_rminus_squarednorm == e^T dr_expinv) as power series")
-        flush(rep)
     else:
         raychk.run(rep, tier, "C05", ["fw_d2rexp", "fw_d2rinv", "lr_d2rexp", "lr_d2rinv"], 1e-5, rule="T.L", minimum=36,
                    what="layer identities (free function == class function; d2l_X(a) == -d2r_X(-a)) as power series")
-        flush(rep)
 
 
 def last(name):
